@@ -1,6 +1,6 @@
 /// The line partition of a text: contiguous, starts at 0, ends at len, every line non-empty,
-/// every bound on a character boundary.  This is what LineBoundaries::new is ASSUMED to return
-/// (its body uses str::match_indices, which Verus cannot verify).
+/// every bound on a character boundary.  This is what LineBoundaries::new is PROVED to return in unit
+/// boundaries (its `str::match_indices` iterator is an O1 stub with the documented behaviour).
 pub open spec fn partition_wf(rs: Seq<(usize, usize)>, bytes: Seq<u8>) -> bool {
     &&& (bytes.len() == 0 <==> rs.len() == 0)
     &&& rs.len() > 0 ==> rs[0].0 == 0 && rs[rs.len() - 1].1 == bytes.len()
@@ -8,8 +8,60 @@ pub open spec fn partition_wf(rs: Seq<(usize, usize)>, bytes: Seq<u8>) -> bool {
     &&& forall|i: int| 0 <= i < rs.len() - 1 ==> (#[trigger] rs[i]).1 == rs[i + 1].0
     &&& forall|i: int| 0 <= i < rs.len() ==> is_char_boundary(bytes, (#[trigger] rs[i]).0 as int) && is_char_boundary(bytes, rs[i].1 as int)
 }
-/// uninterpreted: the table LineBoundaries::new computes for a text
-pub uninterp spec fn line_table(bytes: Seq<u8>) -> Seq<(usize, usize)>;
+/// O1 stub for `content.match_indices('\n')`: the (byte offset, matched text) pairs in order.  ASSUMED (documented behaviour of
+/// str::match_indices for a one-byte pattern): offsets strictly ascending inside the text, and a match covers the valid
+/// sub-slice [idx, idx + 1), so both ends are char boundaries.
+pub open spec fn nl_ok(v: Seq<(usize, &str)>, bytes: Seq<u8>) -> bool {
+    &&& forall|k: int| 0 <= k < v.len() ==> (#[trigger] v[k]).0 < bytes.len() && is_char_boundary(bytes, v[k].0 as int) && is_char_boundary(bytes, v[k].0 + 1)
+    &&& forall|k: int, m: int| 0 <= k < m < v.len() ==> (#[trigger] v[k]).0 < (#[trigger] v[m]).0
+}
+pub uninterp spec fn nl_idx(bytes: Seq<u8>) -> Seq<(usize, &'static str)>;
+#[verifier::external_body]
+fn opq_newline_indices(s: &str) -> (r: Vec<(usize, &'static str)>)
+    ensures r@ == nl_idx(s.spec_bytes()), nl_ok(r@, s.spec_bytes()),
+{ unimplemented!() }
+/// the ranges built so far partition [0, pos) into non-empty lines on char boundaries
+pub open spec fn lb_upto(rs: Seq<(usize, usize)>, pos: int, bytes: Seq<u8>) -> bool {
+    &&& rs.len() == 0 ==> pos == 0
+    &&& rs.len() > 0 ==> rs[0].0 == 0 && rs[rs.len() - 1].1 == pos
+    &&& forall|i: int| 0 <= i < rs.len() ==> (#[trigger] rs[i]).0 < rs[i].1 && rs[i].1 <= bytes.len()
+    &&& forall|i: int, j: int| 0 <= i && j == i + 1 && j < rs.len() ==> (#[trigger] rs[i]).1 == (#[trigger] rs[j]).0
+    &&& forall|i: int| 0 <= i < rs.len() ==> is_char_boundary(bytes, (#[trigger] rs[i]).0 as int) && is_char_boundary(bytes, rs[i].1 as int)
+    &&& is_char_boundary(bytes, pos)
+}
+proof fn lemma_lb_push(rs: Seq<(usize, usize)>, pos: int, x: (usize, usize), bytes: Seq<u8>)
+    requires lb_upto(rs, pos, bytes), x.0 == pos, x.0 < x.1, x.1 <= bytes.len(), is_char_boundary(bytes, x.1 as int),
+    ensures lb_upto(rs.push(x), x.1 as int, bytes),
+{
+    let r2 = rs.push(x);
+    assert forall|i: int, j: int| 0 <= i && j == i + 1 && j < r2.len() implies (#[trigger] r2[i]).1 == (#[trigger] r2[j]).0 by {
+        if j < rs.len() { assert(r2[i] == rs[i] && r2[j] == rs[j]); } else { assert(r2[j] == x); assert(r2[i] == rs[rs.len() - 1]); }
+    }
+    assert forall|i: int| 0 <= i < r2.len() implies (#[trigger] r2[i]).0 < r2[i].1 && r2[i].1 <= bytes.len()
+        && is_char_boundary(bytes, r2[i].0 as int) && is_char_boundary(bytes, r2[i].1 as int) by { if i < rs.len() { assert(r2[i] == rs[i]); } }
+    if rs.len() > 0 { assert(r2[0] == rs[0]); }
+}
+proof fn lemma_lb_done(rs: Seq<(usize, usize)>, bytes: Seq<u8>)
+    requires lb_upto(rs, bytes.len() as int, bytes),
+    ensures partition_wf(rs, bytes),
+{
+    if rs.len() > 0 { assert(rs[0].0 < rs[0].1); }
+    assert forall|i: int| 0 <= i < rs.len() - 1 implies (#[trigger] rs[i]).1 == rs[i + 1].0 by { let j = i + 1; assert(rs[i].1 == rs[j].0); }
+}
+/// the table LineBoundaries::new computes for a text, as a function of the newline offsets: line k runs from just after
+/// newline k-1 (or 0) to just after newline k; a non-empty rest after the last newline is the last line
+pub open spec fn start_after(v: Seq<(usize, &'static str)>, k: int) -> int { if k <= 0 { 0 } else { v[k - 1].0 + 1 } }
+pub open spec fn lt_upto(v: Seq<(usize, &'static str)>, k: int) -> Seq<(usize, usize)>
+    decreases k
+{
+    if k <= 0 { Seq::empty() } else { lt_upto(v, k - 1).push((start_after(v, k - 1) as usize, (v[k - 1].0 + 1) as usize)) }
+}
+pub open spec fn line_table(bytes: Seq<u8>) -> Seq<(usize, usize)> {
+    let v = nl_idx(bytes);
+    let t = lt_upto(v, v.len() as int);
+    let s = start_after(v, v.len() as int);
+    if s < bytes.len() { t.push((s as usize, bytes.len() as usize)) } else { t }
+}
 
 pub open spec fn line_valid(n: u32, count: int) -> bool { 1 <= n && n as int <= count }
 
@@ -19,28 +71,44 @@ struct LineBoundaries {
 }
 //#end
 impl LineBoundaries {
-//#item file=src/authorship/attribution_tracker.rs kind=fn name=new impl="LineBoundaries" body=opaque
-    //@ #[verifier::external_body]
+//#item file=src/authorship/attribution_tracker.rs kind=fn name=new impl="LineBoundaries" opaque='[{"expr": "content.match_indices(\u0027\\n\u0027)", "call": "opq_newline_indices(content)"}]'
     fn new(content: &str) -> (r_: Self)
     //@     ensures r_.line_ranges@ == line_table(content.spec_bytes()), partition_wf(r_.line_ranges@, content.spec_bytes()),
     {
         let mut line_ranges = Vec::new();
         let mut start = 0;
+        //@ let ghost bytes = content.spec_bytes();
+        //@ proof { encode_utf8_valid_utf8(content@); is_char_boundary_start_end_of_seq(bytes); }
 
-        for (idx, _) in content.match_indices('\n') {
+        for (idx, _) in it_0: opq_newline_indices(content)
+        //@     invariant
+        //@         bytes == content.spec_bytes(), it_0.snapshot@.remaining() == nl_idx(bytes), nl_ok(nl_idx(bytes), bytes),
+        //@         lb_upto(line_ranges@, start as int, bytes), start <= bytes.len(), bytes.len() <= usize::MAX,
+        //@         line_ranges@ == lt_upto(nl_idx(bytes), it_0.index@), start == start_after(nl_idx(bytes), it_0.index@),
+        //@         is_char_boundary(bytes, bytes.len() as int),
+        //@         it_0.index@ < nl_idx(bytes).len() ==> start <= nl_idx(bytes)[it_0.index@].0,
+        {
+            //@ let ghost k = it_0.index@;
+            //@ let ghost v = nl_idx(bytes);
+            //@ proof { assert(v[k].0 == idx); if k + 1 < v.len() { assert(v[k].0 < v[k + 1].0); } }
+            //@ let ghost l0 = line_ranges@;
             // Line from start to idx (inclusive of newline)
             line_ranges.push((start, idx + 1));
+            //@ proof { lemma_lb_push(l0, start as int, (start, (idx + 1) as usize), bytes); }
             start = idx + 1;
         }
 
         // Handle last line if it doesn't end with newline
         if start < content.len() {
+            //@ let ghost l0 = line_ranges@;
             line_ranges.push((start, content.len()));
+            //@ proof { lemma_lb_push(l0, start as int, (start, bytes.len() as usize), bytes); }
         } else if start == content.len() && content.is_empty() {
             // Empty file - no lines
         } else if start == content.len() && !content.is_empty() {
             // File ends with newline, last line is already added
         }
+        //@ proof { lemma_lb_done(line_ranges@, bytes); }
 
         LineBoundaries { line_ranges }
     }
